@@ -71,8 +71,15 @@ import (
 type anode struct {
 	Name   string `json:"name"`
 	GPUs   int    `json:"gpus"`
-	GpuMem int64  `json:"gpuMemory"`
+	GpuMem int64  `json:"gpuMemory"` // MemoryOfEveryGpuOnNode (MiB): the label value floored to a multiple of 100
+	// MemLabel: the value of the nvidia.com/gpu.memory label when it is not GpuMem itself (16384 -> 16300)
+	MemLabel int64 `json:"gpuMemoryLabel,omitempty"`
+	// Taint: the node carries the NoSchedule taint verif/dedicated (pods with Tolerate pass it)
+	Taint bool `json:"taint,omitempty"`
 }
+
+// model: the value of the node's verif/gpu-model label (one per GPU memory size)
+func (n anode) model() string { return fmt.Sprintf("m%d", n.GpuMem) }
 
 // acluster: jobs are gangs (minMember = number of pods). A pod with State "running" runs on Node;
 // every other pod is pending.
@@ -105,6 +112,9 @@ func (c *acluster) describe() string {
 			sb.WriteString(" ")
 		}
 		fmt.Fprintf(&sb, "%s:gpu%d/mem%d", n.Name, n.GPUs, n.GpuMem)
+		if n.Taint {
+			sb.WriteString("/tainted")
+		}
 	}
 	sb.WriteString("] queues{")
 	for i, q := range c.Queues {
@@ -139,6 +149,20 @@ func (c *acluster) describe() string {
 			if t.State == "running" {
 				sb.WriteString("=running@" + t.Node)
 			}
+			if len(t.Affinity) > 0 {
+				sb.WriteString("/affinity{" + strings.Join(t.Affinity, ",") + "}")
+			}
+			if len(t.Selector) > 0 {
+				var kv []string
+				for k, v := range t.Selector {
+					kv = append(kv, k+"="+v)
+				}
+				sort.Strings(kv)
+				sb.WriteString("/selector{" + strings.Join(kv, ",") + "}")
+			}
+			if t.Tolerate {
+				sb.WriteString("/tolerates")
+			}
 		}
 		sb.WriteString("]")
 	}
@@ -156,6 +180,15 @@ type acall struct {
 	Commit  int
 	Charge  [3]float64 // bind / pipe: QuantifyResourceRequirements(AcceptedResource) at the moment of the call
 	NodeMem int64
+	Tried   []atry // bind / pipe: the node-level gate calls of the allocation attempt that placed the pod
+}
+
+// atry: one call of the live session's node-level capacity gate (Session.IsTaskAllocationOnNodeOverCapacityFns[0],
+// wrapped) for a task: the candidate node and the verdict.
+type atry struct {
+	Node string
+	Mem  int64
+	Res  *api.SchedulableResult
 }
 
 // gateProbe: one call of the session's job-level gate made by an action, with the other two gates of the
@@ -172,6 +205,7 @@ type gateProbe struct {
 	Mem    int64
 	Usage  []qspec
 	Multi  bool // some task asks more than one device
+	Extra  bool // the same call probed on a further GPU model of the cluster
 }
 
 // arefusal: the allocate action called AllocateJob for a job and the job-level gate of the live session refused
@@ -194,6 +228,11 @@ type arecorder struct {
 	refused []arefusal // allocate action: jobs its job-level gate refused, in order
 	seen    map[string]bool
 	gates   map[string]int // action|job -> calls of the job-level gate
+	// tried: per pod, the node-level gate calls since the last job-level gate call for its job (= since the start of
+	// the AllocateJob that is trying to place it)
+	tried map[string][]atry
+	// probing: the harness itself is calling the session's gates (gate probes): not part of any attempt
+	probing bool
 }
 
 func (r *arecorder) begin() int {
@@ -207,7 +246,7 @@ func (r *arecorder) begin() int {
 func (r *arecorder) Bind(p *pod_info.PodInfo, hostname string, _ map[string]string) error {
 	k := r.begin()
 	r.calls = append(r.calls, acall{Kind: "bind", Pod: p.Name, Node: hostname, Action: r.action, Commit: k,
-		Charge: chargeOf(p), NodeMem: r.b.nodeMem(hostname)})
+		Charge: chargeOf(p), NodeMem: r.b.nodeMem(hostname), Tried: r.tried[p.Name]})
 	return nil
 }
 
@@ -220,7 +259,7 @@ func (r *arecorder) Evict(pod *v1.Pod, _ *podgroup_info.PodGroupInfo, _ eviction
 func (r *arecorder) TaskPipelined(t *pod_info.PodInfo, _ string) {
 	k := r.begin()
 	r.calls = append(r.calls, acall{Kind: "pipe", Pod: t.Name, Node: t.NodeName, Action: r.action, Commit: k,
-		Charge: chargeOf(t), NodeMem: r.b.nodeMem(t.NodeName)})
+		Charge: chargeOf(t), NodeMem: r.b.nodeMem(t.NodeName), Tried: r.tried[t.Name]})
 }
 
 type afakeCache struct {
@@ -282,6 +321,22 @@ func (b *abuilt) usageFromPods() []qspec {
 	return withUsage(b.c.Queues, led)
 }
 
+// usageSummary: for every queue with a finite GPU limit or deserved quota, the GPUs its subtree holds according to the
+// pods (every pod holding resources with its AcceptedResource, i.e. its share of the node it was placed on; all / the
+// non-preemptible ones) next to what the plugin reports (Session.QueueAllocatedResources: whole GPUs from 1 GPU on).
+func (b *abuilt) usageSummary() string {
+	var out []string
+	for _, q := range b.usageFromPods() {
+		if q.Lim[2] < 0 && q.Des[2] < 0 {
+			continue
+		}
+		rr := b.ssn.QueueAllocatedResources(b.ssn.ClusterInfo.Queues[common_info.QueueID(q.Name)])
+		out = append(out, fmt.Sprintf("%s(limit %s, deserved %s): pods %g, non-preemptible %g, plugin %g", q.Name,
+			fmtCap(q.Lim), fmtCap(q.Des), q.Alloc[2], q.NP[2], rr.GPUs()))
+	}
+	return strings.Join(out, "; ")
+}
+
 type aholder struct {
 	Queue  string
 	Pre    bool
@@ -341,15 +396,26 @@ func buildAction(c *acluster) *abuilt {
 	specs := make([]core.NodeSpec, len(c.Nodes))
 	minMem := int64(0)
 	for i, n := range c.Nodes {
-		specs[i] = core.NodeSpec{Name: n.Name, Cpu: 256000, Mem: 1 << 40, Gpus: int64(n.GPUs), Pods: 110, GpuMem: n.GpuMem}
+		label := n.GpuMem
+		if n.MemLabel > 0 {
+			label = n.MemLabel
+		}
+		specs[i] = core.NodeSpec{Name: n.Name, Cpu: 256000, Mem: 1 << 40, Gpus: int64(n.GPUs), Pods: 110, GpuMem: label,
+			Labels: map[string]string{nodeNameLabel: n.Name, nodeModelLabel: n.model()}}
 		vm.AddResourceList(specs[i].K8s().Status.Allocatable)
 		if minMem == 0 || n.GpuMem < minMem {
 			minMem = n.GpuMem
 		}
 	}
-	for _, s := range specs {
+	for i, s := range specs {
 		k := s.K8s()
+		if c.Nodes[i].Taint {
+			k.Spec.Taints = []v1.Taint{{Key: taintKey, Value: "true", Effect: v1.TaintEffectNoSchedule}}
+		}
 		b.nodes[s.Name] = node_info.NewNodeInfo(k, cluster_info.NewK8sNodePodAffinityInfo(k, cpai), vm)
+		if got := b.nodes[s.Name].MemoryOfEveryGpuOnNode; got != c.Nodes[i].GpuMem {
+			panic(fmt.Sprintf("node %s: MemoryOfEveryGpuOnNode = %d, the cluster description says %d", s.Name, got, c.Nodes[i].GpuMem))
+		}
 	}
 	base := time.Unix(1700000000, 0)
 	for ji := range c.Jobs {
@@ -406,7 +472,7 @@ func buildAction(c *acluster) *abuilt {
 		}
 	}
 	b.ssn = ssn
-	b.rec = &arecorder{Cache: ssn.Cache, b: b, seen: map[string]bool{}, gates: map[string]int{}}
+	b.rec = &arecorder{Cache: ssn.Cache, b: b, seen: map[string]bool{}, gates: map[string]int{}, tried: map[string][]atry{}}
 	ssn.Cache = b.rec
 	bump := func(*framework.Event) { b.rec.events++ }
 	ssn.AddEventHandler(&framework.EventHandler{AllocateFunc: bump, DeallocateFunc: bump})
@@ -415,7 +481,22 @@ func buildAction(c *acluster) *abuilt {
 		ssn.IsJobOverCapacityFns[0] = func(job *podgroup_info.PodGroupInfo, tasks []*pod_info.PodInfo) *api.SchedulableResult {
 			res := orig(job, tasks)
 			b.rec.events++
+			for _, t := range tasks { // a new AllocateJob: what earlier attempts tried for these pods is history
+				delete(b.rec.tried, t.Name)
+			}
 			b.rec.gateCall(job, tasks, res)
+			return res
+		}
+	}
+	// the node-level gate as the predicates plugin reaches it: which candidate nodes it is evaluated on, in order
+	if len(ssn.IsTaskAllocationOnNodeOverCapacityFns) > 0 {
+		orig := ssn.IsTaskAllocationOnNodeOverCapacityFns[0]
+		ssn.IsTaskAllocationOnNodeOverCapacityFns[0] = func(task *pod_info.PodInfo, job *podgroup_info.PodGroupInfo,
+			node *node_info.NodeInfo) *api.SchedulableResult {
+			res := orig(task, job, node)
+			if !b.rec.probing {
+				b.rec.tried[task.Name] = append(b.rec.tried[task.Name], atry{Node: node.Name, Mem: node.MemoryOfEveryGpuOnNode, Res: res})
+			}
 			return res
 		}
 	}
@@ -433,7 +514,17 @@ func (r *arecorder) gateCall(job *podgroup_info.PodGroupInfo, tasks []*pod_info.
 		r.refused = append(r.refused, arefusal{Pos: len(r.calls), Job: job, Tasks: append([]*pod_info.PodInfo{}, tasks...), Res: res})
 	}
 	key := fmt.Sprintf("%s|%s|%v", r.action, job.Name, res.IsSchedulable)
-	if r.seen[key] || len(r.probes) >= 5 || len(tasks) == 0 {
+	nprobes := 0
+	for _, p := range r.probes {
+		if !p.Extra {
+			nprobes++
+		}
+	}
+	maxProbes := 5
+	if r.b.c.Family == "hetero" { // each probe is repeated on every GPU model of the cluster
+		maxProbes = 2
+	}
+	if r.seen[key] || nprobes >= maxProbes || len(tasks) == 0 {
 		return
 	}
 	if _, known := r.b.ssn.ClusterInfo.Queues[job.Queue]; !known {
@@ -441,19 +532,26 @@ func (r *arecorder) gateCall(job *podgroup_info.PodGroupInfo, tasks []*pod_info.
 	}
 	r.seen[key] = true
 	ssn := r.b.ssn
-	var node *node_info.NodeInfo
+	// one probe per GPU model of the cluster: the node-level gate depends on the candidate node (a gpu-memory
+	// request is a different share of a GPU on every model)
+	doneMem := map[int64]bool{}
 	for _, n := range r.b.c.Nodes {
-		node = r.b.nodes[n.Name]
-		break
+		node := r.b.nodes[n.Name]
+		if doneMem[node.MemoryOfEveryGpuOnNode] {
+			continue
+		}
+		doneMem[node.MemoryOfEveryGpuOnNode] = true
+		p := gateProbe{Action: r.action, Job: job.Name, Queue: string(job.Queue), Pre: job.IsPreemptibleJob(),
+			Tasks: append([]*pod_info.PodInfo{}, tasks...), VJob: res, VNP: ssn.IsNonPreemptibleJobOverQueueQuotaFn(job, tasks),
+			Mem: node.MemoryOfEveryGpuOnNode, Usage: r.b.usageFromPods(), Extra: len(doneMem) > 1}
+		r.probing = true
+		for _, t := range tasks {
+			p.VTask = append(p.VTask, ssn.IsTaskAllocationOnNodeOverCapacityFn(t, job, node))
+			p.Multi = p.Multi || multiDevice(t)
+		}
+		r.probing = false
+		r.probes = append(r.probes, p)
 	}
-	p := gateProbe{Action: r.action, Job: job.Name, Queue: string(job.Queue), Pre: job.IsPreemptibleJob(),
-		Tasks: append([]*pod_info.PodInfo{}, tasks...), VJob: res, VNP: ssn.IsNonPreemptibleJobOverQueueQuotaFn(job, tasks),
-		Mem: node.MemoryOfEveryGpuOnNode, Usage: r.b.usageFromPods()}
-	for _, t := range tasks {
-		p.VTask = append(p.VTask, ssn.IsTaskAllocationOnNodeOverCapacityFn(t, job, node))
-		p.Multi = p.Multi || multiDevice(t)
-	}
-	r.probes = append(r.probes, p)
 }
 
 func runOneAction(b *abuilt, name string) (panicked string) {
@@ -542,12 +640,14 @@ func runActionCase(c *acluster) actionObs {
 		obs   string
 	}
 	var ends []actEnd
+	var usage []string // per action: GPU usage of the capped queues recomputed from the pods, next to the plugin's own
 	for _, a := range c.Actions {
 		if p := runOneAction(b, a); p != "" {
 			o.Panic = fmt.Sprintf("action %s: %s", a, p)
 			break
 		}
 		ends = append(ends, actEnd{calls: len(b.rec.calls), obs: b.observe()})
+		usage = append(usage, fmt.Sprintf("after %s: %s", a, b.usageSummary()))
 	}
 	calls := b.rec.calls
 
@@ -666,8 +766,38 @@ func runActionCase(c *acluster) actionObs {
 				bound = bound || r.Kind == "bind"
 				ch := r.Charge
 				led[r.Pod] = aholder{Queue: js.Queue, Pre: js.Preemptible, Charge: ch}
-				ots = append(ots, otaskTerm(b.tid.of(r.Pod), t, r.NodeMem, gate, &ch))
-				names = append(names, fmt.Sprintf("%s %s->%s", r.Kind, r.Pod, r.Node))
+				// the candidate nodes the attempt passed over: the live node-level gate was evaluated there (its
+				// verdict is compared with the model's gate for THAT node in the state of that moment), then the
+				// node was dropped (gate refusal, a later predicate, or no room)
+				tried := r.Tried
+				if n := len(tried); n > 0 && tried[n-1].Node == r.Node {
+					tried = tried[:n-1]
+				} else {
+					// the pod went to a node on which the session's node-level gate did not run last
+					o.Counts["action-placed-on-node-without-own-gate-call"]++
+				}
+				var tts, tns []string
+				for _, a := range tried {
+					v, kk := verdictTerm(a.Res, b.qid)
+					tts = append(tts, u.Pair(u.Pos(int(a.Mem)), v))
+					tns = append(tns, fmt.Sprintf("%s(%d MiB):%s", a.Node, a.Mem, kk))
+					if a.Mem != r.NodeMem {
+						o.Counts["action-attempt-passed-over-node-of-other-gpu-model:"+kk]++
+					}
+				}
+				o.Counts[fmt.Sprintf("action-attempt-nodes-passed-over:%d", len(tried))]++
+				ots = append(ots, otaskTermTried(b.tid.of(r.Pod), t, r.NodeMem, gate, &ch, u.List(tts)))
+				nm := fmt.Sprintf("%s %s->%s(%d MiB GPUs: %g GPU)", r.Kind, r.Pod, r.Node, r.NodeMem, ch[2])
+				if len(tns) > 0 {
+					nm += " after " + strings.Join(tns, ",")
+				}
+				names = append(names, nm)
+				if t.IsMemoryRequest() {
+					o.Counts["action-placed-gpu-memory-pod"]++
+					if r.NodeMem != ssn.ClusterInfo.MinNodeGPUMemory {
+						o.Counts["action-placed-gpu-memory-pod-on-bigger-gpu-model"]++
+					}
+				}
 				nPl++
 			}
 			if !allJob && !allNode {
@@ -728,7 +858,8 @@ func runActionCase(c *acluster) actionObs {
 		tag = "uncovered-admitted=" + strings.Join(uncovered, ",")
 	}
 	o.Uncovered = uncovered
-	o.Label = fmt.Sprintf("action %s %s %s commits[%s]", c.Family, tag, c.describe(), strings.Join(o.Trace, " | "))
+	o.Label = fmt.Sprintf("action %s %s %s commits[%s] gpu-usage[%s]", c.Family, tag, c.describe(), strings.Join(o.Trace, " | "),
+		strings.Join(usage, " | "))
 	if o.Panic != "" {
 		o.Label += " PANIC"
 	}
@@ -794,8 +925,8 @@ func probeTerm(b *abuilt, c *acluster, p gateProbe) probeOut {
 	for _, t := range p.Tasks {
 		tl = append(tl, fmt.Sprintf("%s(gpus %g)", t.Name, t.ResReq.GetGpusQuota()))
 	}
-	label := fmt.Sprintf("action-probe in %s: job-gate(%s@%s pre=%v [%s]) = %s, np-quota = %s, node-gate = %v on usage-from-pods {%s} OF %s",
-		p.Action, p.Job, p.Queue, p.Pre, strings.Join(tl, " "), k1, k2, ks, strings.Join(ql, "; "), c.describe())
+	label := fmt.Sprintf("action-probe in %s: job-gate(%s@%s pre=%v [%s]) = %s, np-quota = %s, node-gate (node with %d MiB GPUs) = %v on usage-from-pods {%s} OF %s",
+		p.Action, p.Job, p.Queue, p.Pre, strings.Join(tl, " "), k1, k2, p.Mem, ks, strings.Join(ql, "; "), c.describe())
 	return probeOut{Term: term, Label: label, Key: fmt.Sprintf("probe|%s|%s|%s|%v", p.Action, k1, k2, ks)}
 }
 
@@ -1405,6 +1536,17 @@ func runActions(out *u.Out, root *u.Rng, nsess int) {
 	for i := 0; i < nsess; i++ {
 		clusters = append(clusters, genActionCluster(root.Fork(uint64(7000000+i)), i))
 	}
+	// clusters mixing GPU models (hetero.go): after the others, so that their indices stay what they were
+	clusters = append(clusters, heteroCorpus()...)
+	for i := 0; i < nsess*2/3; i++ {
+		clusters = append(clusters, genHetero(root.Fork(uint64(8000000+i))))
+	}
+	emitActions(out, clusters)
+}
+
+// emitActions runs the sessions (on a few goroutines, each with its own session objects) and emits their cases and
+// gate probes in index order.
+func emitActions(out *u.Out, clusters []*acluster) {
 	if len(clusters) == 0 {
 		return
 	}
